@@ -169,10 +169,10 @@ def c05(tier, seed):
         cases += [c for c in gen_blocks.systematic_blocks() if "Nest" not in c["tags"]]
         cases += gen.weighted_cases(rng, 10 if tier == "quick" else 150)
         cases += common.witness_cases("C05")
-        maxl = 1500 if tier == "quick" else 12000
+        maxl = 500 if tier == "quick" else 12000
         for batch in batches(cases, 250):
-            obs = impl.run_tasks([(c, [{"op": "drawtree", "max_leaves": maxl, "timeout": 120 if tier == "quick" else 600}]) for c in batch],
-                                 op_timeout=150 if tier == "quick" else 700)
+            obs = impl.run_tasks([(c, [{"op": "drawtree", "max_leaves": maxl, "timeout": 20 if tier == "quick" else 600}]) for c in batch],
+                                 op_timeout=45 if tier == "quick" else 700)
             lcases, lmap = [], []
             for c, o in zip(batch, obs):
                 cov.evaluations += 1
@@ -265,7 +265,7 @@ def c05(tier, seed):
         "the complete tree of random.randrange outcomes of RandomGen's first candidate (real sampler, scripted source) for every "
         "design whose tree has at most %d leaves; RandomLoop.tla replays every path (well-formed tree: same range, all values), "
         "then judges the accepted leaves: one per sequence, equal total probability; MCTrace/MCEnum: accepted sequences = valid "
-        "sequences; non-trivial = more than one accepted leaf" % (1500 if tier == "quick" else 12000)), t0, machinery_error=err)
+        "sequences; non-trivial = more than one accepted leaf" % (500 if tier == "quick" else 12000)), t0, machinery_error=err)
 
 
 CHECKS = {"C13": c13, "C05": c05}
